@@ -7,7 +7,7 @@ From BS Require Import Model.Base Model.Regex Model.Num Model.ExprParser Model.S
   Gen.Unicode Proofs.ScriptFacts Proofs.C06 Proofs.C10 Proofs.C10ws Proofs.C10wsExpr Proofs.C10wsIndent
   Proofs.ExprFuel Proofs.C10wsFull Proofs.RegexShiftG Proofs.C10wsIndent2 Proofs.C10wsReturn
   Proofs.C10tokLex Proofs.C10tokSpaced Proofs.RegexTrail Proofs.C10tokTrail Proofs.RegexTrail2
-  Proofs.RegexTrail3 Proofs.C10stmtTrail Proofs.C10parseNoeq Proofs.C10classifyTrail Proofs.C10stmtGaps Proofs.C10stmtGaps2.
+  Proofs.RegexTrail3 Proofs.C10stmtTrail Proofs.C10parseNoeq Proofs.C10classifyTrail Proofs.C10stmtGaps Proofs.C10stmtGaps2 Proofs.C10stmtGaps3.
 
 (* ---- LF versus CRLF: both texts have the same lines ---- *)
 Theorem C10_crlf : forall lines, lines <> [] -> Forall no_lf lines -> Forall (fun l => ends_cr l = false) lines ->
@@ -347,14 +347,14 @@ Proof.
   eexists. split; [vm_compute; reflexivity | vm_compute; discriminate].
 Qed.
 
-(* ---- INNER gaps of a statement line (round 6, Proofs/C10stmtGaps.v, C10stmtGaps2.v): the white runs at the places where
-   the statement regex has `\s*` / `\s+`.  PARTIAL: the kinds assignment, if, elif, while, return <expr>, jump, jumpif (plus,
-   from before, `else :` C10_ws_else_gap and the keyword-only lines).  NOT covered: function begin, for, label, include (oracle
-   only).  For the seven kinds the classification is computed from the PIECES of the line, for ALL white runs:
+(* ---- INNER gaps of a statement line (round 6, Proofs/C10stmtGaps.v, C10stmtGaps2.v, C10stmtGaps3.v): the white runs at the
+   places where the statement regex has `\s*` / `\s+`.  PARTIAL: the kinds assignment, if, elif, while, return <expr>, jump,
+   jumpif, include <url> (plus, from before, `else :` C10_ws_else_gap and the keyword-only lines).  NOT covered: function begin,
+   for, label, include 'url' (oracle only).  For these eight kinds the classification is computed from the PIECES of the line, for ALL white runs:
      w1 name w2 = T        ->  KAssign name e           w1 if w2 T : w4            ->  KIf e
      w1 elif w2 T : w4     ->  KElif (ROk e)            w1 while w2 T : w4         ->  KWhile e
      w1 return w2 T        ->  KReturn (Some e)         w1 jump w2 name w4         ->  KJump name None
-     w1 jumpif g ( T ) w2 name w4  ->  KJump name (Some e)
+     w1 jumpif g ( T ) w2 name w4  ->  KJump name (Some e)      w1 include w2 <url> w4     ->  KInclude url true
    (w1 w2 w4 g arbitrary runs of `\s` characters, w2 non-empty where the regex has `\s+`; name an identifier; T an LF-free text
    with parse_expression T = EOk e, starting with a non-space character after if / elif / while / return — in the assignment T
    includes the run after `=`, in jumpif the runs inside the parentheses; the run in front of the colon belongs to T: the greedy
@@ -407,6 +407,13 @@ Theorem C10_ws_jumpif_pieces : forall n w1 g T w2 name w4 e, white w1 -> white g
 Proof. exact classify_jumpif_shape. Qed.
 Print Assumptions C10_ws_jumpif_pieces.
 
+(* the system include: not part of stmt_spaced2 (there is no expression in it), stated by its pieces only *)
+Theorem C10_ws_include_system_pieces : forall n w1 w2 url w4, white w1 -> white w2 -> w2 <> [] -> white w4 ->
+  (forall c, In c url -> c <> 62%N) ->
+  Lower.classify n (w1 ++ U "include" ++ w2 ++ U "<" ++ url ++ U ">" ++ w4) = ROk (KInclude url true).
+Proof. exact classify_include_system_shape. Qed.
+Print Assumptions C10_ws_include_system_pieces.
+
 Theorem C10_expression_never_starts_eq : forall t e, parse_expression (U "=" ++ t) <> EOk e.
 Proof. exact parse_hd_noeq. Qed.
 Print Assumptions C10_expression_never_starts_eq.
@@ -433,12 +440,15 @@ Example C10_ex_ws_statement_gaps_computed :
   (exists e, Lower.classify 2 (U "while a<1:") = ROk (KWhile e) /\ Lower.classify 2 (U "\000009while a <  1 :  ") = ROk (KWhile e)) /\
   Lower.classify 2 (U "jumpif(a<1) top") = Lower.classify 2 (U "  jumpif ( a<1 )\000009top ") /\
   Lower.classify 2 (U "return a<1") = Lower.classify 2 (U "  return \000009a <  1 ") /\
+  Lower.classify 2 (U "include <a b.bare>") = ROk (KInclude (U "a b.bare") true) /\
+  Lower.classify 2 (U " include \000009 <a b.bare>  ") = ROk (KInclude (U "a b.bare") true) /\
   (* white space inside a piece is outside the relation: *)
   Lower.classify 2 (U "if a<1:") <> Lower.classify 2 (U "i f a<1:") /\
   Lower.classify 2 (U "ifa<1:") <> Lower.classify 2 (U "if a<1:").
 Proof.
   split; [vm_compute; reflexivity|]. split; [vm_compute; reflexivity|].
   split; [eexists; split; vm_compute; reflexivity|]. split; [vm_compute; reflexivity|]. split; [vm_compute; reflexivity|].
+  split; [vm_compute; reflexivity|]. split; [vm_compute; reflexivity|].
   split; vm_compute; discriminate.
 Qed.
 
@@ -457,11 +467,11 @@ Qed.
      (C10_ws_expression_trailing, C10_ws_token_regex_trailing);
    * round 6: the INNER gaps of the statement regexes (`\s*` / `\s+` between keyword, names, `=`, parentheses, colon) for
      assignment, if, elif, while, return <expr>, jump, jumpif: C10_ws_statement_gaps_partial (relation stmt_spaced2) and the
-     per-kind C10_ws_*_pieces; from before: the keyword-only statements and the bare `return` with any indentation and
+     per-kind C10_ws_*_pieces; include <url>: C10_ws_include_system_pieces; from before: the keyword-only statements and the bare `return` with any indentation and
      trailing whitespace (C10_ws_keyword_lines, C10_ws_return_bare) and `else :` (C10_ws_else_gap).
    NOT proved (oracle only):
    * the INNER gaps of function begin (`async`, `function`, name, `(`, the argument list with its commas, `...`, `)`, `:`),
-     for (`for v , i in e :`), label (`name :`), include (`include '...'`, `include <...>`): their indentation and trailing
+     for (`for v , i in e :`), label (`name :`), include '...' (quoted form): their indentation and trailing
      run ARE covered (C10_ws_padding), the gaps between their pieces are not.  What is missing is one direct reading per
      regex (as in Proofs/C10stmtGaps.v); label additionally needs "the name is not a keyword" (`else :` is KElse, `if  :` is an
      if with the expression ` `), for has the optional index group, function begin a star over a group, include a
